@@ -292,6 +292,8 @@ func autoVarNameOf(c *spec.Cmd, p *spec.Program) string {
 func runC16(ctx *h.Ctx) int {
 	prof := profFull()
 	prof.NoSharedResultVar = true // the monitor finds an AutoVar operand's source construct through its result var
+	// string literals with line breaks INSIDE the quotes: every marker after them must still count lines right
+	prof.TextPool = []string{"Hello", "Bye now", "A b c", "Prize!", "x", "two lines\n      of text", "trailing break\n", "\n  leading break", "three\nlines\r\n\tof text"}
 	paths := []string{"src/test.pory", `C:\proj\data\map.pory`, "a b/ü.pory", "x.pory", `\\srv\share\f.pory`, "C:/Users/山田\u3000太郎/a.pory", "dir\u00a0with nbsp/b.pory", "zero\u200bwidth/\ue000private.pory", "tab\there.pory", `quo"te.pory`}
 	ctx.RunCases("markers", ctx.N(4000, 200000), func(k *h.Case) {
 		p := prof
